@@ -4,6 +4,7 @@ import (
 	"bytes"
 	"errors"
 	"fmt"
+	"runtime"
 	"runtime/debug"
 	"strings"
 	"sync/atomic"
@@ -108,6 +109,8 @@ func (dc *docCase) try(in []byte, kind string) bool {
 	if len(in) > 4096 {
 		// large inputs run under a drawn pipeline schedule: a stuck stage is a simulator-visible deadlock
 		dc.bubble++
+		oldProcs := runtime.GOMAXPROCS([]int{1, 2, 16}[r.C.Intn("gomaxprocs", 3)])
+		defer runtime.GOMAXPROCS(oldProcs)
 		kindP := r.C.Intn("policy", polCount)
 		pol := newPipePolicy(r.C, kindP, len(in)/300+8)
 		r.stat("policy_"+polNames[kindP], 1)
